@@ -90,5 +90,6 @@ ASSUMPTIONS = {
         "histogram step: counts are >= 1 (every key of the dictionary was inserted with 1) and a bin holds fewer than u32::MAX k-mers (preconditions)",
         "unverified glue: the loops over the two FASTQ files and their records (needletail), `for kmer_count in self.kmer_dict.values()` (hashbrown iteration: each key once), that fit_histogram passes counts.len() as the cap and stores the result, the first two columns printed by plot_hist",
         "floating point in find_cutoff compared under CBMC's IEEE-754 model",
+        "grad_ll_never_nan: exp() replaced by an arbitrary value in [0, +inf], a() and b() by arbitrary finite tables, one multiplicity; CBMC's own NaN/overflow instrumentation is switched off for this harness (its `NaN on division` check flags 1/(1+r), r >= 0) and the result is tested with is_nan() instead",
     ],
 }
